@@ -12,6 +12,7 @@ mod filter;
 mod cfg;
 mod filereader;
 mod upfile;
+mod upbackup;
 
 fn dispatch(op: &str, arg: &Value) -> Result<Value, String> {
     match op {
@@ -22,6 +23,7 @@ fn dispatch(op: &str, arg: &Value) -> Result<Value, String> {
         "filter" => filter::op_filter(arg),
         "filereader" => filereader::op_filereader(arg),
         "upfile" => upfile::op_upfile(arg),
+        "upbackup" => upbackup::op_upbackup(arg),
         "cfgload" => cfg::op_cfgload(arg),
         "cfgpath" => cfg::op_cfgpath(arg),
         "verify" => verify::op_verify(arg),
